@@ -1,5 +1,5 @@
 #!/usr/bin/env python3
-import importlib, os, sys, traceback
+import atexit, importlib, os, shutil, sys, traceback
 sys.path.insert(0, "/verif/tools"); sys.path.insert(0, "/verif/checks")
 import vlib
 
@@ -10,6 +10,13 @@ def main():
     tier = sys.argv[2] if len(sys.argv) > 2 else os.environ.get("VERIF_TIER", "quick")
     if tier not in ("quick", "thorough"): tier = "quick"
     seed = int(os.environ.get("VERIF_SEED", "1") or 1)
+    # every run works on its own copy of the specifications: the checks generate TLC configurations next to the modules, and two
+    # runs of one property at the same time (different tiers or seeds) must not see each other's generated files
+    private = os.path.join(vlib.BUILD, "specrun", "%s-%d" % (pid, os.getpid()))
+    shutil.rmtree(private, ignore_errors=True)
+    shutil.copytree(vlib.SPEC, private, ignore=shutil.ignore_patterns("gen_*", "*_TTrace_*", "states"))
+    vlib.SPEC = private
+    atexit.register(shutil.rmtree, private, True)
     try:
         mod = importlib.import_module(pid.lower())
     except ImportError as ex:
